@@ -36,7 +36,8 @@ SUITES = {
                "generator": "gen_client.py", "gen": lambda prop: CL_PROFILES.get(prop, CL_PROFILES["*"]), "case_prefix": "case "},
     "cli": {"pkg": ["./cmd/bisquitt/", "./cmd/bisquitt-pub/", "./cmd/bisquitt-sub/"], "run": "TestVerifCLI$", "driver": "cli",
             "timeout": "30m", "parts": ["sub", "pub", "gw"], "generator": "gen_cli.py",
-            "gen": lambda prop: [("sec", 8, 8), ("mix", 25, 300)] if prop == "C31" else [("mix", 30, 400), ("sec", 8, 8)],
+            "gen": lambda prop: ([("sec", 8, 8), ("mix", 25, 300)] if prop == "C31" else
+                                 [("iso", 4, 4), ("mix", 5, 40)] if prop == "C15" else [("mix", 30, 400), ("sec", 8, 8)]),
             "case_prefix": "R ", "prepend_corpus": True},
 }
 
@@ -434,4 +435,22 @@ PROPS["C25"] = {
     "trusted_base": TB_GW + TB_CL[4:] + TB_CLI[4:],
     "assumptions": ["memory safety and data races of the real code are observed on the runs made, not proved"],
     "explanation": "theorems c25_*; crash/hang detection of every suite (process-crash, process-hang, panic lines)",
+}
+
+PROPS["C15"] = {
+    "level": "proof",
+    "level_text": "Lean theorems c15_isolation, c15_own, c15_projection (after ANY interleaved history the session of a peer is what its own events alone produce) over the "
+                  "multi-session model, c15_no_shared_state (regenerated: no package-level variables in gateway/ besides error sentinels); tie: the REAL gateway (Application.Run, "
+                  "accept loop, per-session goroutines, real UDP/TCP loopback) runs an observed conversation alone and again with a second, disruptive peer (connecting before or "
+                  "after, AUTH with passwords of several lengths, registrations, wildcard subscription, garbage, dying by error or DISCONNECT): everything the observed peer receives "
+                  "and everything the broker receives on its connection must be identical",
+    "technique": "Lean 4 theorems over a multi-session model + regenerated facts + relational (non-interference) run of the real gateway",
+    "suites": ["cli"],
+    "relevant": lambda line: False,
+    "rule": "4 two-peer scenarios per run (second peer first / second, dying by error / by DISCONNECT, password length varied by seed), each run twice (alone / with the second peer) "
+            "through the real `bisquitt` application with --auth and a default broker password, plus a few single-peer configuration cases; one R line per scenario",
+    "trusted_base": TB_CLI + ["Bisquitt/Model/Sessions.lean (sessions keyed by peer address)", "pion/udp listener (peer-address demultiplexing) is exercised, not modelled"],
+    "assumptions": ["isolation is checked for the scripted two-peer scenarios, not for arbitrary interleavings of real sessions; the model theorem covers all interleavings of the model",
+                    "peers using the same MQTT client ID are out of scope (the broker, not the gateway, resolves that)"],
+    "explanation": "theorems c15_*; relational two-peer runs of the real gateway",
 }
